@@ -215,13 +215,19 @@ struct CondVar {
 
 // replacement for std::thread: registers the child with the scheduler; the child starts running only when chosen
 struct Thread {
-    std::thread t; int id = -1;
+    std::thread t; int vid = -1;
+    // the std::thread vocabulary the code under test may use
+    using id = std::thread::id;
+    using native_handle_type = std::thread::native_handle_type;
+    id get_id() const noexcept { return t.get_id(); }
+    native_handle_type native_handle() { return t.native_handle(); }
+    static unsigned hardware_concurrency() noexcept { return std::thread::hardware_concurrency(); }
     Thread() = default;
     template<class F, class... A, class = std::enable_if_t<!std::is_same_v<std::decay_t<F>, Thread>>>
     explicit Thread(F &&f, A &&... a) {
         auto &s = Sched::I();
-        { std::unique_lock<std::mutex> lk(s.G); id = s.spawn_register(); s.log("spawn " + std::to_string(Sched::me) + " " + std::to_string(id)); }
-        int myid = id;
+        { std::unique_lock<std::mutex> lk(s.G); vid = s.spawn_register(); s.log("spawn " + std::to_string(Sched::me) + " " + std::to_string(vid)); }
+        int myid = vid;
         t = std::thread([myid](std::decay_t<F> fn, std::decay_t<A>... args) {
             auto &s = Sched::I(); Sched::me = myid;
             { std::unique_lock<std::mutex> lk(s.G); s.cv.wait(lk, [&] { return s.cur == myid; }); }
@@ -247,20 +253,19 @@ struct Thread {
         s.point();
     }
     Thread(Thread &&) = default;
-    Thread &operator=(Thread &&o) { if (t.joinable()) std::terminate(); t = std::move(o.t); id = o.id; o.id = -1; return *this; }
+    Thread &operator=(Thread &&o) { if (t.joinable()) std::terminate(); t = std::move(o.t); vid = o.vid; o.vid = -1; return *this; }
     ~Thread() = default;
     bool joinable() const { return t.joinable(); }
     void join() {
         auto &s = Sched::I();
         {
             std::unique_lock<std::mutex> lk(s.G); s.switch_locked(lk);
-            while (s.ts[id].st != Sched::FIN) { s.ts[Sched::me].st = Sched::JOINING; s.ts[Sched::me].joining = id; s.switch_locked(lk); }
-            s.log("joined " + std::to_string(Sched::me) + " " + std::to_string(id));
+            while (s.ts[vid].st != Sched::FIN) { s.ts[Sched::me].st = Sched::JOINING; s.ts[Sched::me].joining = vid; s.switch_locked(lk); }
+            s.log("joined " + std::to_string(Sched::me) + " " + std::to_string(vid));
         }
         t.join();
     }
     void detach() { t.detach(); }
-    std::thread::id get_id() const { return t.get_id(); }
 };
 
 // watchdog: a run that makes no scheduling progress for `secs` seconds is reported as a hang
